@@ -27,6 +27,9 @@
   (ite (bvsle n #x0000000000000007)
        (snoc (snoc s (TByte (bvadd #x70 ((_ extract 7 0) n)))) (TStr tn))
        (snoc (snoc (snoc s (TByte #x56)) (TStr tn)) (TInt ((_ extract 31 0) n)))))
+; the full-width header is legal for every length (the compact one is the encoder's choice for short lists, not a demand of the property)
+(define-fun G.listHdrTypedLong ((s Stream) (tn Str) (n (_ BitVec 64))) Stream
+  (snoc (snoc (snoc s (TByte #x56)) (TStr tn)) (TInt ((_ extract 31 0) n))))
 ; field-name events of a class definition: TStr(lower(field i)) for i < n
 (define-fun-rec G.fieldNames ((s Stream) (t RT) (i (_ BitVec 64))) Stream
   (ite (bvsle i #x0000000000000000) s
@@ -38,6 +41,8 @@
   (ite (and (bvsge k #x0000000000000000) (bvsle k #x000000000000000f))
        (snoc s (TByte (bvadd #x60 ((_ extract 7 0) k))))
        (snoc (snoc s (TByte #x4f)) (TInt ((_ extract 31 0) k)))))
+; the full-width instance header 'O' int is legal for every class index
+(define-fun G.instTagLong ((s Stream) (k (_ BitVec 64))) Stream (snoc (snoc s (TByte #x4f)) (TInt ((_ extract 31 0) k))))
 ; field-value events of an object instance
 (define-fun-rec G.fieldVals ((s Stream) (v RV) (i (_ BitVec 64))) Stream
   (ite (bvsle i #x0000000000000000) s
